@@ -5,6 +5,7 @@
 //     the whole process quiescent = a crash point between two effects), and
 //   - drop every effect once the session is marked dead (the process has crashed: whatever the
 //     code still attempts - error handling, roll-back - never reaches the disk).
+//
 // Without an active session everything passes straight through to package os.
 package vos
 
@@ -59,20 +60,25 @@ func (e Effect) String() string { return fmt.Sprintf("t%d:%s(%s,%d)", e.Thread, 
 
 // Session controls one execution.
 type Session struct {
-	mu      sync.Mutex
-	Budget  map[int]int // thread -> number of effects it may still apply (missing = unlimited)
+	mu     sync.Mutex
+	Budget map[int]int // thread -> number of effects it may still apply (missing = unlimited)
 	// Tear: if >0, the effect right after thread TearThread's budget is exhausted, when it is a
 	// write, is applied for its first Tear bytes only (torn write), and then the thread parks.
 	TearThread int
 	Tear       int
-	Count   map[int]int
-	Trace   []Effect
-	threads map[uint64]int
-	dead    atomic.Bool
-	parked  []chan struct{}
-	Torn    bool
-	open    map[*File]string
-	Base    string // paths are recorded relative to this directory
+	// TearMod/TearRem: when TearMod > 0 the torn prefix is the LONGEST one (shorter than the
+	// write) that leaves the file with a size congruent to TearRem modulo TearMod - e.g. a whole
+	// number of 512-byte shares after the header: the cut a size-based validity check is most
+	// likely to accept. SizeOf must return the current size of the file.
+	TearMod, TearRem int
+	Count            map[int]int
+	Trace            []Effect
+	threads          map[uint64]int
+	dead             atomic.Bool
+	parked           []chan struct{}
+	Torn             bool
+	open             map[*File]string
+	Base             string // paths are recorded relative to this directory
 }
 
 var current atomic.Pointer[Session]
@@ -119,6 +125,14 @@ func goid() uint64 {
 
 // effect is called before every effect; it returns (apply, tornBytes):
 // apply=false -> drop the effect and return ErrCrashed to the caller.
+func fileSize(path string) int {
+	st, err := os.Stat(path)
+	if err != nil {
+		return 0
+	}
+	return int(st.Size())
+}
+
 func effect(kind, path string, n int) (apply bool, torn int) {
 	s := current.Load()
 	if s == nil {
@@ -142,6 +156,17 @@ func effect(kind, path string, n int) (apply bool, torn int) {
 			tornBytes = s.Tear
 			if tornBytes >= n {
 				tornBytes = n - 1
+			}
+			if s.TearMod > 0 {
+				// longest proper prefix that leaves size ≡ TearRem (mod TearMod)
+				cur := fileSize(path)
+				tornBytes = 0
+				for t := n - 1; t > 0; t-- {
+					if (cur+t)%s.TearMod == s.TearRem {
+						tornBytes = t
+						break
+					}
+				}
 			}
 			if tornBytes > 0 {
 				s.Torn = true
@@ -354,16 +379,16 @@ func RemoveAll(path string) error {
 }
 
 // read-only pass-throughs
-func Stat(name string) (FileInfo, error)        { return os.Stat(name) }
-func Lstat(name string) (FileInfo, error)       { return os.Lstat(name) }
-func ReadFile(name string) ([]byte, error)      { return os.ReadFile(name) }
-func ReadDir(name string) ([]DirEntry, error)   { return os.ReadDir(name) }
-func Readlink(name string) (string, error)      { return os.Readlink(name) }
-func IsNotExist(err error) bool                 { return os.IsNotExist(err) }
-func IsExist(err error) bool                    { return os.IsExist(err) }
-func Getenv(k string) string                    { return os.Getenv(k) }
-func TempDir() string                           { return os.TempDir() }
-func MkdirTemp(d, p string) (string, error)     { return os.MkdirTemp(d, p) }
+func Stat(name string) (FileInfo, error)      { return os.Stat(name) }
+func Lstat(name string) (FileInfo, error)     { return os.Lstat(name) }
+func ReadFile(name string) ([]byte, error)    { return os.ReadFile(name) }
+func ReadDir(name string) ([]DirEntry, error) { return os.ReadDir(name) }
+func Readlink(name string) (string, error)    { return os.Readlink(name) }
+func IsNotExist(err error) bool               { return os.IsNotExist(err) }
+func IsExist(err error) bool                  { return os.IsExist(err) }
+func Getenv(k string) string                  { return os.Getenv(k) }
+func TempDir() string                         { return os.TempDir() }
+func MkdirTemp(d, p string) (string, error)   { return os.MkdirTemp(d, p) }
 
 // OpenFiles lists the files opened through vos during the session that are still open.
 func (s *Session) OpenFiles() []string {
